@@ -103,6 +103,10 @@ type l4Case struct {
 	// OtherShape: the runs before the operation proper (cache warm-up, preliminary run) use
 	// another slice length, i.e. other SQL: the operation proper misses the cache
 	OtherShape bool   `json:"otherShape,omitempty"`
+	// BeginCancel: the context given to Begin is cancelled after the operation and
+	// database/sql has rolled the transaction back on its own before Commit / Rollback are
+	// called: they must all report that the transaction is over
+	BeginCancel bool `json:"beginCancel,omitempty"`
 	PairOp     string `json:"pairOp,omitempty"`
 	AEnd   string `json:"aEnd,omitempty"`
 }
@@ -317,6 +321,9 @@ func genL4(r *rng.R) *l4Case {
 	if (strings.HasSuffix(c.Path, "cached") || c.PreCtx == "live") && r.Chance(1, 3) {
 		c.OtherShape = true
 	}
+	if strings.HasPrefix(c.Path, "tx") && c.TxEnd == "after" && c.Concurrent == 0 && r.Chance(1, 5) {
+		c.BeginCancel = true
+	}
 	return c
 }
 
@@ -482,9 +489,13 @@ func runL4Case(c *l4Case) (obs *l4Obs) {
 	defer cancel()
 
 	var tx *sqlair.TX
+	cancelBegin := func() {}
 	st.Reset()
 	if onTx {
-		tx, err = db.Begin(context.Background(), nil)
+		bctx, bcancel := context.WithCancel(context.Background())
+		defer bcancel()
+		cancelBegin = bcancel
+		tx, err = db.Begin(bctx, nil)
 		if err != nil {
 			obs.Panic = "begin failed: " + err.Error()
 			return obs
@@ -707,6 +718,18 @@ func runL4Case(c *l4Case) (obs *l4Obs) {
 		}
 	}
 	if onTx && c.TxEnd == "after" {
+		if c.BeginCancel {
+			cancelBegin()
+			// database/sql rolls back in the background; wait for the driver to see it
+			waitFor(func() bool {
+				for _, e := range st.Events() {
+					if e.Kind == "rollback" {
+						return true
+					}
+				}
+				return false
+			})
+		}
 		finish()
 	}
 	if onTx {
@@ -715,10 +738,12 @@ func runL4Case(c *l4Case) (obs *l4Obs) {
 	}
 	for _, e := range st.Events() {
 		if k, ok := modelledEvents[e.Kind]; ok {
-			if c.OtherShape && k == "stmtClose" && e.Stmt <= stmtsBefore {
+			if (c.OtherShape || c.BeginCancel) && k == "stmtClose" && e.Stmt <= stmtsBefore {
 				// the statement of the other shape, evicted from the cache by the operation
 				// proper, is closed by a finalizer whenever the collector runs: not an event
-				// of this operation (C10/C11's subject)
+				// of this operation (C10/C11's subject).  When database/sql rolls back
+				// because the Begin context ended it discards the connection, closing every
+				// statement that lived on it: the environment's doing, not the library's.
 				continue
 			}
 			obs.Events = append(obs.Events, k)
